@@ -31,6 +31,8 @@ pub(crate) struct ReqSocket {
   ingress_engine: AddressedIngressEngine,
   pending_pipe_senders: ParkingLotMutex<HashMap<usize, PipeMessageSender>>,
   state: ParkingLotMutex<ReqState>,
+  /// Serialises `send()` calls: the state check, the awaited send and the state update form one turn.
+  send_turn: tokio::sync::Mutex<()>,
   reply_available_notifier: Arc<Notify>,
   pipe_read_to_endpoint_uri: RwLock<HashMap<usize, String>>,
 }
@@ -44,6 +46,7 @@ impl ReqSocket {
       ingress_engine: AddressedIngressEngine::new(max_conn),
       pending_pipe_senders: ParkingLotMutex::new(HashMap::new()),
       state: ParkingLotMutex::new(ReqState::ReadyToSend),
+      send_turn: tokio::sync::Mutex::new(()),
       reply_available_notifier: Arc::new(Notify::new()),
       pipe_read_to_endpoint_uri: RwLock::new(HashMap::new()),
     }
@@ -118,6 +121,9 @@ impl ISocket for ReqSocket {
         "REQ send: Cleared MORE flag from user-provided message."
       );
     }
+
+    // A racing send() waits here until the one in flight has updated the state (or was dropped).
+    let _turn = self.send_turn.lock().await;
 
     // === LOCK SCOPE 1: Check State ===
     {
